@@ -322,6 +322,11 @@ def register(target: Any, mspec: Dict[str, Any]) -> None:
         target.view(cls, context='context' if ctx_mode == 'view' else None, prefix=prefix)
         return
     fn = build_function(mspec)
+    if mspec.get('schema_strings'):
+        # validated by the library's JSON-schema validator (one validator object per registration, as a decorator would create it)
+        from pjrpc.server.validators import jsonschema as vjs
+        schema = {'type': 'object', 'properties': {n: {'type': 'string'} for n in mspec['schema_strings']}}
+        fn = vjs.JsonSchemaValidator().validate(fn, schema=schema)
     ctx_names = [p['name'] for p in mspec['params'] if p.get('ctx')]
     if ctx_mode == 'none':
         target.add(fn, name=key)
@@ -338,7 +343,12 @@ def build_dispatcher(kind: str, registry: List[Dict[str, Any]], **kwargs: Any) -
         d = pjrpc.server.AsyncDispatcher(**kwargs)
     reg = pjrpc.server.MethodRegistry()
     for m in registry:
-        register(reg, m)
+        if m.get('via') == 'dispatcher.add' and m['flavour'] not in ('view', 'aview'):
+            # registered on the dispatcher itself (dispatcher.add has the same name / context / positional arguments)
+            ctx_names = [p['name'] for p in m['params'] if p.get('ctx')]
+            d.add(build_function(m), m['name'], context=ctx_names[0] if ctx_names else None, positional=(m.get('ctx') == 'positional'))
+        else:
+            register(reg, m)
     d.add_methods(reg)
     return d
 
